@@ -68,9 +68,13 @@ CLAIMED = {
              "(SDBSim.lean: relation preserved by every write, induction over the sequence; related start states exist for every "
              "store), on CreateAccount where evm.create may call it, and across a reverted frame (Snapshot, any writes on cached accounts, "
              "RevertToSnapshot: both sides succeed and are related again), hence on ANY list of write calls and failed frames "
-             "(SDBFrames.lean, induction over the list); ApplyEvmMsg's EIP-3529 refund equals go-ethereum's for all inputs and never exceeds a fifth of the gas used. A "
+             "(SDBFrames.lean, induction over the list) and on ANY TREE of write calls and call frames nested to any depth, each frame "
+             "returning normally or failing (SDBNested.lean: mutual structural induction over the nested inductive Body, carrying what a "
+             "run leaves behind beyond the observables — journal suffix whose reversal restores the state, younger revision ids only, "
+             "untouched outside accounts — on both sides); ApplyEvmMsg's EIP-3529 refund equals go-ethereum's for all inputs and never exceeds a fifth of the gas used. A "
              "cross-implementation oracle reports the first call on which Nibiru's and go-ethereum's real StateDBs answer differently.",
-        note="NOT proved: frames nested inside frames, accounts first created inside a reverted frame, and the reference's Commit "
+        note="NOT proved: accounts first loaded or created inside a reverted frame (the frame theorems assume the touched accounts cached, "
+             "as after the interpreter's read-before-write), and the reference's Commit "
              "(what Nibiru's Commit persists is proved under C04) — there the observational equality is established by the correspondence "
              "runs only. Trusted: Lean kernel; the interpreter (same code on both sides); harness; GethSpec's fidelity to go-ethereum "
              "is itself validated by differential execution, not proved. Precompile calls are excluded here (C04/C08).",
@@ -275,7 +279,9 @@ CLAIMED = {
              "unchanged tree: two kernel-checked counterexample theorems (lost pre-frame write; stale balance of an account loaded after a "
              "bank move) are replayed on the real code by the corpus and recorded as known findings. Proved positively: for frames WITHOUT a "
              "precompile call, Snapshot / any sequence of writes on cached accounts / RevertToSnapshot restores every observable "
-             "(C04_frame_revert_restores_partial, induction over the sequence); for transactions WITHOUT a precompile call, after any "
+             "(C04_frame_revert_restores_partial, induction over the sequence), and so does a failed frame around ANY tree of writes and "
+             "nested frames, returning or failing, to any depth — journal and revision list are exactly the old ones afterwards "
+             "(C04_nested_frame_revert_restores_partial, SDBNested.lean); for transactions WITHOUT a precompile call, after any "
              "write sequence Commit stores exactly the final view of every dirtied live account (nonce, code hash, whole-unibi balance, "
              "every slot), removes self-destructed ones and touches nothing else (C04_commit_*_partial, SDBCommit.lean, any number of "
              "accounts and slots); T1 fact: OnRunStart makes exactly three unconditional StateDB calls (cache context, journal entry, "
@@ -285,8 +291,8 @@ CLAIMED = {
              "journaled world + journaled multistore) evaluates the property on every implementation trace and reports any violation "
              "outside the listed findings.",
         note="Trusted: Lean kernel; harness; the reference oracle. Not repaired: the natural repair contradicts the pinned test "
-             "TestJournalReversion (asserts the dirty count after an intermediate flush). Partial: histories with CreateAccount or with "
-             "writes interleaved with nested snapshots are covered by the correspondence only.",
+             "TestJournalReversion (asserts the dirty count after an intermediate flush). Partial: histories with CreateAccount inside a "
+             "reverted frame are covered by the correspondence only.",
         technique="Lean 4 counterexample proofs (decide on closed terms) + partial theorems + differential correspondence + reference-semantics oracle",
         ref="§7 C04"),
 }
